@@ -347,7 +347,7 @@ func c17Finish(c *engine.Ctx, cov map[string]interface{}) string {
 func init() {
 	register(&engine.Check{
 		ID: "C17", Level: "exploration",
-		Rule: "ReplaceMultipleWhitespace on all strings ≤8 over {space,\\t,\\n,\\r,\\f,a,b} vs a regexp reference; ReplaceEntities on all sequences ≤5 over 22 entity fragments × 3 reverse maps: never longer, idempotent, html.UnescapeString unchanged (NUL references excepted), result is a prefix of the argument; the combined function == ReplaceEntities∘ReplaceMultipleWhitespace on all sequences ≤5 over 17 fragments; html.EscapeAttrVal on all values ≤4 over 16 atoms × origQuote × mustQuote × 3 buffers and xml.EscapeAttrVal ≤5: read back through the lexer as one attribute whose value decodes to the same text, quoting policy, shortest quote; xml.EscapeCDATAVal on all strings ≤7 over {a < & ] > l t ;}",
+		Rule:        "ReplaceMultipleWhitespace on all strings ≤8 over {space,\\t,\\n,\\r,\\f,a,b} vs a regexp reference; ReplaceEntities on all sequences ≤5 over 22 entity fragments × 3 reverse maps: never longer, idempotent, html.UnescapeString unchanged (NUL references excepted), result is a prefix of the argument; the combined function == ReplaceEntities∘ReplaceMultipleWhitespace on all sequences ≤5 over 17 fragments; html.EscapeAttrVal on all values ≤4 over 16 atoms × origQuote × mustQuote × 3 buffers and xml.EscapeAttrVal ≤5: read back through the lexer as one attribute whose value decodes to the same text, quoting policy, shortest quote; xml.EscapeCDATAVal on all strings ≤7 over {a < & ] > l t ;}",
 		Assumptions: []string{"entity maps are consistent with HTML (replacement decodes to the same text and is not longer)", "ReplaceMultipleWhitespaceAndEntities is compared with whitespace first, entities second"},
 		Setup:       c17Setup, Work: c17Work, Finish: c17Finish,
 	})
